@@ -710,6 +710,17 @@ class CallMixin:
             return Sym("itemgetter", args[0])
         if q in ("operator.methodcaller", "_operator.methodcaller") and args and isinstance(args[0], Const) and isinstance(args[0].v, str):
             return Sym("methodcaller", args[0].v, tuple(args[1:]), _kw(kwargs))
+        if q == "itertools.accumulate" and len(args) == 1 and not kwargs:
+            items = self.concrete_items(self.resolve_alt(args[0]))
+            if items is not None:
+                out_a: List[V] = []
+                acc = None
+                for x in items:
+                    acc = x if acc is None else self.binop(ast.Add(), acc, x, module, node)
+                    out_a.append(acc)
+                res_a = PyList(out_a)
+                res_a.created_in = self._frame_id()  # type: ignore[attr-defined]
+                return res_a
         if q in ("itertools.chain", "itertools.chain.from_iterable"):
             seqs = list(args)
             if q.endswith("from_iterable") and len(args) == 1:
@@ -1108,6 +1119,16 @@ class CallMixin:
                 return PyList([PyTuple([Const(i), x]) for i, x in enumerate(items)])
             if isinstance(a[0], (ListV, AbsList, MapV)):
                 return AbsList(PyTuple([Sym("index", a[0], hint="int"), a[0].elem]), self.list_minlen(a[0]))
+        if name == "map" and len(a) == 2:
+            items = self.concrete_items(a[1])
+            if items is not None:
+                out_l = PyList([self.call_v(a[0], [x], {}, module, node, env) for x in items])
+                out_l.created_in = self._frame_id()  # type: ignore[attr-defined]
+                return out_l
+            if isinstance(a[1], (AbsList, ListV, MapV)) or (isinstance(a[1], PyList) and a[1].loop_parts):
+                src = a[1]
+                e0 = src.elem if not isinstance(src, PyList) else self._elem_of_pylist(src)
+                return MapV(src, self.call_v(a[0], [e0], {}, module, node, env))
         if name == "zip" and len(a) == 1 and isinstance(a[0], Sym) and a[0].op == "star":
             cols = self.unzip(self.resolve_alt(a[0].args[0]))
             if cols is not None:
@@ -1380,6 +1401,9 @@ class CallMixin:
             return NONE
         if name == "extend" and len(a) == 1:
             self.list_extend(base, a[0])
+            return NONE
+        if name == "reverse" and not a and isinstance(base, PyList) and not base.loop_parts and not self.loop_ctx:
+            base.items.reverse()
             return NONE
         if name == "insert" and len(a) == 2 and isinstance(base, PyList) and isinstance(a[0], Const) and not base.loop_parts and not self.loop_ctx:
             base.items.insert(a[0].v, a[1])
